@@ -119,8 +119,9 @@ def run_lists(paths, d, tag, opts, ped, lists=("read", "gt", "recomb")):
     files = {}
     for l in lists:
         files[l] = os.path.join(d, tag + names[l])
-        if os.path.exists(files[l]):
-            os.unlink(files[l])
+        # what an earlier run left at the same path must not survive: a list that was asked for is rewritten
+        with open(files[l], "w") as f:
+            f.write("#stale\nSTALE\tchrZ\t1\t2\tA\tC\t0/1\t0/0\t0\n")
     if "read" in lists:
         kw["read_list_filename"] = files["read"]
     if "gt" in lists:
@@ -131,7 +132,14 @@ def run_lists(paths, d, tag, opts, ped, lists=("read", "gt", "recomb")):
         kw["ped"] = ped
         kw["recombrate"] = RECOMBRATE
     parsed, traces, err = pw.run_phase(paths, d, out_name=tag + "out.vcf", **kw)
-    return parsed, traces, err, {l: read_table(p) for l, p in files.items()}
+    tabs = {l: read_table(p) for l, p in files.items()}
+    if "recomb" in lists and not ped:
+        tabs["recomb"] = None  # not requested without a pedigree
+    stale = [l for l, tab in tabs.items() if tab and any(r and r[0] == "STALE" for r in tab)]
+    for l in stale:
+        tabs[l] = [r for r in tabs[l] if r and r[0] != "STALE"]
+    tabs["_stale"] = stale
+    return parsed, traces, err, tabs
 
 
 _scratch = None
@@ -157,6 +165,8 @@ def judge(inst):
     parsed, traces, err, tabs = run_lists(paths, d, "all_", opts, ped, lists)
     if err:
         return [V("error", f"whatshap phase failed: {err}")], False
+    for l in tabs.pop("_stale"):
+        viols.append(V("stale-list", f"the {l} list still holds the entries an earlier run left at that path: the file was not rewritten"))
     inp = synth.parse_vcf(paths["vcf"])
     chrom_names = [c["name"] for c in world["chroms"]]
     selected = opts.get("chromosomes") or chrom_names
